@@ -92,7 +92,7 @@ def main():
         for p in progs:
             f.write(json.dumps(p) + "\n")
     pr = subprocess.run(["timeout", "1800", binpath, pfile, ofile], capture_output=True, text=True)
-    outs = [json.loads(l) for l in open(ofile)] if os.path.exists(ofile) else []
+    outs = vlib.read_ndjson(ofile)
     if pr.returncode != 0:
         rep.violation("crash", {"stderr": pr.stderr[-300:]}, "harness died (exit %s): %s" % (pr.returncode, pr.stderr[-300:]))
     # split the output back into programs; build the trace
